@@ -232,7 +232,25 @@ func (c *caCtx) call(v *ast.CallExpr, depth int, out map[string]bool) {
 			return
 		}
 		if fd := c.p.Func("", f.Name); fd != nil && !c.keep[f.Name] && depth < 2 {
+			// inside the helper "the input" is whichever of ITS parameters received the input, not a
+			// local that happens to have the caller's parameter name (harmless seed C11-H2: an extracted
+			// indirectAll(v reflect.Value) returning its own v looked like an aliasing arm)
+			saved := c.src
+			inner := map[string]bool{}
+			if fd.Type.Params != nil {
+				i := 0
+				for _, fld := range fd.Type.Params.List {
+					for _, nm := range fld.Names {
+						if i < len(v.Args) && c.isSrc(v.Args[i]) {
+							inner[nm.Name] = true
+						}
+						i++
+					}
+				}
+			}
+			c.src = inner
 			c.features(fd.Body.List, depth+1, out)
+			c.src = saved
 			return
 		}
 		out["call:"+f.Name+caIntArgs(v)] = true
